@@ -297,6 +297,55 @@ def eval_stream(case):
         ds = [e for e in evs if type(e).__name__ == "DocumentStartEvent"]
         if len(ds) != 2 or ds[0].version != (1, 1) or ds[1].version is not None:
             failures.append(Failure("yaml-directive-leaks-into-next-document:%s" % bname, repr([d.version for d in ds])))
+    # the writing side: emitting the documents of a stream together denotes what emitting each of them alone denotes
+    # (tag handles, prepared tags, anchors and analysis results of one document are not carried into the next)
+    try:
+        src = list(yaml.parse(full, Loader=yaml.Loader))
+    except yaml.YAMLError:
+        src = None
+    if src is not None:
+        per, cur = [], None
+        for e in src:
+            if type(e).__name__ == "DocumentStartEvent":
+                cur = []
+                per.append(cur)
+            if cur is not None and type(e).__name__ != "StreamEndEvent":
+                cur.append(e)
+        if len(per) >= 2:
+            cl.add("emit:stream-of-documents")
+            for dname, D in [("py", yaml.Dumper)] + ([("c", yaml.CDumper)] if have_c() else []):
+                evals += 1 + len(per)
+
+                def emit_parse(docs_):
+                    try:
+                        text = yaml.emit([src[0]] + [e for d in docs_ for e in d] + [src[-1]], Dumper=D)
+                    except yaml.YAMLError as e:
+                        return ("emit-exc", type(e).__name__)
+                    try:
+                        evs = list(yaml.parse(text, Loader=yaml.Loader))
+                    except yaml.YAMLError as e:
+                        return ("parse-exc", type(e).__name__, text)
+                    out, c = [], None
+                    for e in evs:
+                        if type(e).__name__ == "DocumentStartEvent":
+                            c = []
+                            out.append(c)
+                        if c is not None:
+                            c.append(e)
+                    return ("ok", [[x for x in _norm_anchor_events(p) if x[0] != "DocumentEndEvent"] for p in out])
+                whole = emit_parse(per)
+                parts = [emit_parse([d]) for d in per]
+                if any(p[0] != "ok" for p in parts):
+                    continue
+                alone = [x for p in parts for x in p[1]]
+                if whole[0] != "ok":
+                    failures.append(Failure("emitted-stream-fails-but-documents-alone-do-not:%s:%s" % (dname, whole[1]), "%.300r\ntext=%r" % (whole, full[:300])))
+                elif [[(x[0],) + x[2:] for x in d] for d in whole[1]] != [[(x[0],) + x[2:] for x in d] for d in alone]:
+                    k = 0
+                    while k < min(len(alone), len(whole[1])) and alone[k] == whole[1][k]:
+                        k += 1
+                    failures.append(Failure("emitted-stream-differs-from-documents-alone:%s" % dname,
+                                            "document %d: alone %.300r\nin stream %.300r\ntext=%r" % (k, alone[k:k + 1], whole[1][k:k + 1], full[:300])))
     nt = bool(cl & {"directive:TAG-in-non-last-document", "directive:YAML-in-non-last-document", "anchor-in-non-last-document"})
     return Eval(failures, sorted(cl), nontrivial=nt, ident=full, evals=evals, sample={"text": full[:300]})
 
